@@ -88,6 +88,11 @@ def run(chk, repo):
                why="the step-down recursion (1 - k**2, |k| < 1) assumes a monic polynomial: with a non-unit leading "
                    "coefficient the verdict changes with the filter gain (1/(2 - z^-1) reported unstable)",
                node=calls[0])
+    divs = [n for st in tr[0].body for n in ast.walk(st) if isinstance(n, ast.BinOp) and isinstance(n.op, ast.Div)]
+    okm = len(divs) == 1 and unparse(divs[0].left) in ("filt.denpoly", "filt.denpoly.copy()") \
+        and unparse(divs[0].right) in ("filt.denpoly[0]", "filt.denominator[0]", "filt.dendict[0]")
+    chk.decide(okm, "E11", W("parcor_stable"), "monic by construction: " + (unparse(divs[0]) if divs else "no division"),
+               why="the polynomial is made monic by dividing the whole denominator by its own zero-delay coefficient", node=ps)
     mentions = "filt.denpoly" in unparse(calls[0]) or any("filt.denpoly" in unparse(s) for s in tr[0].body)
     chk.decide(mentions, "E11", W("parcor_stable"), "the tested polynomial is the filter's denominator",
                why="stability is decided by the denominator", node=ps)
